@@ -99,6 +99,9 @@ def generate(seed, stratum, tier):
       clients.append(s)
     clients[0] += [['sleep', 0.01], ['is_alive'], ['subscribe', 1, 'SZ', 'fifo', 'event'], ['publish', 'SZ', None], ['sleep', 0.01]]
     sd = common.draw_sched(rng, grans=('line', 'opcode'), weights=(1, 2), expected_steps=700, policies=('sticky', 'pct'))
+    if rng.random() < 0.3:
+      # nobody has asked for the fabric before: the concurrent clients make the first ActiveFabric() requests themselves
+      return {'queues': queues, 'clients': clients, 'stratum': stratum, 'sched': sd, 'lazy_fabric': True}
   return {'queues': queues, 'clients': clients, 'stratum': stratum, 'sched': sd}
 
 
